@@ -107,11 +107,19 @@ class CHECK(Check):
         from cfinterface.data.registerdata import RegisterData
         from cfinterface.files.registerfile import RegisterFile
 
+        import hashlib, json
+        hh = int(hashlib.sha1(json.dumps(case, sort_keys=True).encode()).hexdigest(), 16)
+
         def mkcls(name, ident, names):
             ns = {"IDENTIFIER": ident, "IDENTIFIER_DIGITS": 2, "__slots__": []}
-            for i, n in enumerate(names):
-                ns[n] = property(lambda self, i=i: self.data[i])
-            return type(name, (Register,), ns)
+            props = {n: property(lambda self, i=i: self.data[i]) for i, n in enumerate(names)}
+            how = hh % 3
+            if how == 0 or not names:
+                ns.update(props)
+                return type(name, (Register,), ns)
+            # the properties come from a mixin, listed after (how == 1) or before (how == 2) the framework class
+            mixin = type(name + "Mixin", (object,), dict(props, __slots__=[]))
+            return type(name, (Register, mixin) if how == 1 else (mixin, Register), ns)
 
         def mkchild(name, base, names, offset):
             ns = {"__slots__": []}
